@@ -657,6 +657,127 @@ class ModuleInliner:
 
 
 # ------------------------------------------------------------------------------------------------
+class DeRename:
+    """Renaming a local variable never changes behaviour, so a rule may be asked about ANY alpha-variant of a function.  The
+    rules speak about some locals by the names the library uses today (x_next, error_value, tmp_values ...); when a maintainer
+    renames such a local, this pass proposes the rule vocabulary's closest unused name for every local the vocabulary does not
+    know (token containment / string similarity, best match must be clear), and renames consistently inside the function.
+    A wrong guess is harmless: the rule is then as undecided as before, and only a result in which every obligation HOLDS is
+    ever adopted from a normal form."""
+
+    def __init__(self, vocabulary: Set[str]):
+        import builtins
+        import keyword
+        self.vocab = {v for v in vocabulary if v.isidentifier() and not keyword.iskeyword(v) and not hasattr(builtins, v)
+                      and not v.startswith("_") and v == v.lower()}
+        self.renamed = 0
+        self._index = None
+
+    @staticmethod
+    def _tokens(name: str):
+        return [t for t in re.split(r"_+|(?<=[a-z])(?=[A-Z])", name) if t]
+
+    def _score(self, v: str, n: str) -> float:
+        from collections import Counter
+        tv, tn = self._tokens(v.lower()), self._tokens(n.lower())
+        if not tv or not tn:
+            return 0.0
+        # every token of the vocabulary name occurs in the local, at most one token is extra (x_next_rn ~ x_next, next_x ~ x_next)
+        cv, cn = Counter(tv), Counter(tn)
+        if all(cv[t] >= k for t, k in cn.items()) and len(tv) - len(tn) <= 1:
+            return 0.8 + 0.19 * (len(tn) / len(tv))
+        return 0.0
+
+    def _candidates(self, v: str, free: Set[str]):
+        """vocabulary names sharing a token with v (index built once)"""
+        if self._index is None:
+            self._index = {}
+            for n in self.vocab:
+                for t in set(self._tokens(n.lower())):
+                    self._index.setdefault(t, set()).add(n)
+        out = set()
+        for t in set(self._tokens(v.lower())):
+            out |= self._index.get(t, set())
+        return [n for n in out if n in free]
+
+    def _function(self, fn):
+        params = {a.arg for a in fn.args.posonlyargs + fn.args.args + fn.args.kwonlyargs}
+        if fn.args.vararg:
+            params.add(fn.args.vararg.arg)
+        if fn.args.kwarg:
+            params.add(fn.args.kwarg.arg)
+        stores, blocked, present = set(), set(), set()
+        for n in ast.walk(fn):
+            if isinstance(n, ast.Name):
+                present.add(n.id)
+            elif isinstance(n, ast.arg):
+                present.add(n.arg)
+        todo = list(fn.body)
+        while todo:
+            n = todo.pop()
+            if isinstance(n, (ast.FunctionDef, ast.AsyncFunctionDef, ast.ClassDef)):
+                blocked.add(n.name)
+                continue
+            if isinstance(n, ast.Name) and isinstance(n.ctx, (ast.Store, ast.Del)):
+                stores.add(n.id)
+            elif isinstance(n, (ast.Global, ast.Nonlocal)):
+                blocked |= set(n.names)
+            elif isinstance(n, (ast.Import, ast.ImportFrom)):
+                for a in n.names:
+                    blocked.add((a.asname or a.name).split(".")[0])
+            elif isinstance(n, ast.ExceptHandler) and n.name:
+                blocked.add(n.name)
+            todo.extend(ast.iter_child_nodes(n))
+        for n in ast.walk(fn):
+            if n is fn:
+                continue
+            if isinstance(n, (ast.FunctionDef, ast.AsyncFunctionDef, ast.Lambda)):
+                a = n.args
+                for x in a.posonlyargs + a.args + a.kwonlyargs:
+                    blocked.add(x.arg)
+                if a.vararg:
+                    blocked.add(a.vararg.arg)
+                if a.kwarg:
+                    blocked.add(a.kwarg.arg)
+                if not isinstance(n, ast.Lambda):
+                    for m in ast.walk(n):
+                        if isinstance(m, ast.Name) and isinstance(m.ctx, ast.Store):
+                            blocked.add(m.id)
+                        if isinstance(m, (ast.Global, ast.Nonlocal)):
+                            blocked |= set(m.names)
+        unknown = sorted(v for v in stores if v not in params and v not in blocked and v not in self.vocab and not v.startswith("__"))
+        if not unknown:
+            return
+        free = {n for n in self.vocab if n not in present}
+        proposals = []
+        for v in unknown:
+            scored = sorted(((self._score(v, n), n) for n in self._candidates(v, free)), reverse=True)[:2]
+            if scored and scored[0][0] >= 0.84 and (len(scored) == 1 or scored[0][0] - scored[1][0] >= 0.03):
+                proposals.append((scored[0][0], v, scored[0][1]))
+        mapping, taken = {}, set()
+        for sc, v, n in sorted(proposals, reverse=True):
+            if n not in taken:
+                mapping[v] = n
+                taken.add(n)
+        if not mapping:
+            return
+        for n in ast.walk(fn):
+            if isinstance(n, ast.Name) and n.id in mapping:
+                n.id = mapping[n.id]
+        self.renamed += len(mapping)
+
+    def run(self, tree: ast.Module) -> ast.Module:
+        # outermost functions only: nested functions are renamed together with their enclosing function
+        def visit(body):
+            for st in body:
+                if isinstance(st, (ast.FunctionDef, ast.AsyncFunctionDef)):
+                    self._function(st)
+                elif isinstance(st, ast.ClassDef):
+                    visit(st.body)
+        visit(tree.body)
+        return tree
+
+
 class SplitTupleAssign(ast.NodeTransformer):
     """`a, b = (X, Y)` -> `a = X; b = Y` when no target is read by a later right-hand side (so the simultaneous assignment and
     the sequence agree); `a = a` is dropped."""
@@ -777,8 +898,9 @@ class LoopToComprehension:
         return tree
 
 
-def normalise_repo(src_repo: str, dst_repo: str, anchors: Set[str], package: str = "quara", comprehensions: bool = False) -> Dict[str, int]:
-    stats = {"files": 0, "calls_inlined": 0, "files_changed": 0, "loops_rewritten": 0}
+def normalise_repo(src_repo: str, dst_repo: str, anchors: Set[str], package: str = "quara", comprehensions: bool = False,
+                   inline: bool = True, derename: bool = False) -> Dict[str, int]:
+    stats = {"files": 0, "calls_inlined": 0, "files_changed": 0, "loops_rewritten": 0, "locals_renamed": 0}
     src = os.path.join(src_repo, package)
     for root, dirs, files in os.walk(src):
         dirs[:] = [d for d in dirs if d != "__pycache__"]
@@ -794,17 +916,21 @@ def normalise_repo(src_repo: str, dst_repo: str, anchors: Set[str], package: str
             try:
                 tree = ast.parse(text)
                 mi = ModuleInliner(tree, anchors)
-                new = mi.run()
+                new = mi.run() if inline else tree
                 lc = LoopToComprehension()
+                dr = DeRename(anchors)
                 if mi.inlined:
                     new = ast.fix_missing_locations(SplitTupleAssign().visit(new))
                 if comprehensions:
                     new = lc.run(new)
-                if mi.inlined or lc.rewritten:
+                if derename:
+                    new = dr.run(new)
+                if mi.inlined or lc.rewritten or dr.renamed:
                     text = ast.unparse(new) + "\n"
                     stats["files_changed"] += 1
                     stats["calls_inlined"] += mi.inlined
                     stats["loops_rewritten"] += lc.rewritten
+                    stats["locals_renamed"] += dr.renamed
             except (SyntaxError, RecursionError):
                 pass
             with open(os.path.join(dst_repo, rel, fn), "w", encoding="utf-8") as fh:
